@@ -27,16 +27,17 @@ func init() {
 		ID:    "C16",
 		Title: "Connectedness tracker and notify primitives: no deadlock, no missed update",
 		Explanation: "Decides, for every schedule at once, the locking shape that rules out the two failure modes of a closed-channel condition variable, for every module type that owns a notify.Notify (connectedness tracker, lifecycle manager, discovery peer cache, and as cross-checks the network-update and net-manager siblings). " +
-			"(D1) the lock-order graph (acquisition-while-held edges, through callees, with the lock of each Notify resolved from its notify.New construction site) has no cycle and no re-acquisition through a lock of these types. " +
+			"(D1) the lock-order graph (acquisition-while-held edges, through callees, with the lock of each Notify resolved from its notify.New construction site) has no cycle and no re-acquisition through a lock of these types; a sync.WaitGroup takes part in the graph as a pseudo-lock (Add takes it until Done, Wait blocks on it): holding a lock while in WaitGroup.Wait and taking (or, in notify.Wait, re-taking) that lock while an Add is outstanding is a cycle. " +
 			"(D2) every Broadcast is made with the condition's lock L write-held on every call path. " +
 			"(D3) every Wait (or call of an unexported boolean wrapper around it) is made with L held, sits in a loop that reaches the Wait again after a wake-up, inside that loop the fields the waiter tests are only read with L held (test and registration form one critical section), every branch taken with L held on the way to the Wait tests only values of that state that were read with L held (no stale copy read before the lock or through a getter that releases it), and no other lock that a broadcaster of the same condition must take first stays held across the sleep. " +
 			"(D4) Notify.Wait registers for the channel before it releases L, releases L before sleeping, re-acquires L on every path out of the select, returns false on the context arm and true on the signal arm; Broadcast closes the channel Wait sleeps on and forgets it; every store to that channel field in the notify package is either a first registration (field nil on that path) or goes with a close of the channel read from the field (the channel is shared by all sleeping waiters: dropping it unclosed orphans them). " +
 			"(D5) after a cancelled Wait the caller reaches no further Wait and every return it can reach yields false. " +
 			"(D6) every write (store, map insert) to a field the waiters' predicates read is followed by a Broadcast on that condition on every path from the write to a return of the function (through unexported helpers: of its callers; one Broadcast per element of a range loop counts; the branch on which the stored value equals the value read before is exempt), or preceded by one in the same critical section of L; get-or-create inserts of fresh objects and removals are exempt (removals are only noted). " +
+			"(D7) one object per key for the objects waiters sleep on: every insert of a freshly created family object (GroupStatus, PeerStatus, topicUpdate) into a map field of a family object is dominated by the miss of a lookup of the same map made in the same write-locked critical section (same lock write-held at lookup and store, not released in between: no double-checked creation without re-check), and no entry of such a registry map is ever deleted (a waiter may still sleep on the removed object's condition). " +
 			"Not decided: that a waiter returns exactly the peers whose status changed (functional content of the diff), fairness/promptness in real time, data races that are not lost wake-ups, behaviour of code that reaches these objects through reflection or unsafe; lock identity is per class, not per instance.",
 		Trusted:     []string{"go/ssa (x/tools v0.29.0)", "sync.Mutex / sync.RWMutex / channel close semantics", "lock identity by owner type + field path; notify.New argument aliasing resolved at construction sites"},
 		Assumptions: []string{"a Notify is only built by notify.New and only stored in the struct field it is constructed for; locks are not passed around as values outside the construction sites"},
-		Floors:      map[string]int{"D1": 10, "D2": 5, "D3": 25, "D4": 9, "D5": 10, "D6": 5},
+		Floors:      map[string]int{"D1": 10, "D2": 5, "D3": 25, "D4": 9, "D5": 10, "D6": 5, "D7": 6},
 		Run:         runC16,
 	})
 }
@@ -330,6 +331,51 @@ func c16KeyClass(key string) string {
 	return key
 }
 
+// c16Op: a mutex operation, or an operation on a sync.WaitGroup seen as a pseudo-lock: Add
+// takes it (the counter is outstanding until Done), Done releases it, Wait probes it (blocks
+// until every holder has released it, takes nothing).
+type c16Op struct {
+	lockOp
+	WG    bool
+	Probe bool
+}
+
+const c16WGPrefix = "waitgroup:"
+
+func (a *c16An) opOf(ci ssa.CallInstruction) (c16Op, string, bool) {
+	if op, ok := lockOpOf(ci); ok {
+		return c16Op{lockOp: op}, a.lockKey(op, c16LockRecv(ci)), true
+	}
+	cc := ci.Common()
+	key := calleeKey(cc)
+	if !strings.HasPrefix(key, "(*sync.WaitGroup).") || len(cc.Args) == 0 {
+		return c16Op{}, "", false
+	}
+	op := c16Op{WG: true}
+	op.Instr = ci
+	op.Mode = 'W'
+	_, op.Deferred = ci.(*ssa.Defer)
+	switch key[strings.LastIndex(key, ".")+1:] {
+	case "Add":
+		op.Acquire = true
+		if len(cc.Args) > 1 {
+			if n, isConst := constInt(cc.Args[1]); isConst && n < 0 {
+				op.Acquire = false
+			}
+		}
+	case "Done":
+	case "Wait":
+		op.Probe = true
+	default:
+		return c16Op{}, "", false
+	}
+	cls := c16Class(cc.Args[0])
+	if cls == "" {
+		return op, "", true
+	}
+	return op, c16WGPrefix + cls + "/W", true
+}
+
 // ---------------------------------------------------------------------------
 // per-function lock flow (must-hold and may-hold before each instruction)
 
@@ -343,7 +389,7 @@ func (a *c16An) flow(fn *ssa.Function) *c16Flow {
 	for _, b := range fn.Blocks {
 		for _, in := range b.Instrs {
 			if ci, ok := in.(ssa.CallInstruction); ok {
-				if _, ok := lockOpOf(ci); ok {
+				if _, _, ok := a.opOf(ci); ok {
 					hasOp = true
 				}
 			}
@@ -365,12 +411,8 @@ func (a *c16An) flow(fn *ssa.Function) *c16Flow {
 			if !ok {
 				continue
 			}
-			op, ok := lockOpOf(ci)
-			if !ok {
-				continue
-			}
-			k := a.lockKey(op, c16LockRecv(ci))
-			if k == "" {
+			op, k, ok := a.opOf(ci)
+			if !ok || k == "" || op.Probe {
 				continue
 			}
 			if op.Deferred {
@@ -568,10 +610,8 @@ func (a *c16An) computeAcq() {
 				if _, isGo := in.(*ssa.Go); isGo {
 					continue
 				}
-				if op, ok := lockOpOf(ci); ok && op.Acquire {
-					if k := a.lockKey(op, c16LockRecv(ci)); k != "" {
-						add(fn, c16Acq{Key: k, Reacq: a.flow(fn).reacq[in], Via: fnName(fn)})
-					}
+				if op, k, ok := a.opOf(ci); ok && k != "" && ((op.Acquire && !op.WG) || op.Probe) {
+					add(fn, c16Acq{Key: k, Reacq: a.flow(fn).reacq[in], Via: fnName(fn)})
 				}
 			}
 		}
@@ -589,7 +629,7 @@ func (a *c16An) computeAcq() {
 			if _, isGo := cs.Instr.(*ssa.Go); isGo {
 				continue
 			}
-			if _, isLock := lockOpOf(cs.Instr); isLock {
+			if _, _, isLock := a.opOf(cs.Instr); isLock {
 				continue
 			}
 			for _, id := range ids {
@@ -633,12 +673,10 @@ func (a *c16An) edges() []c16Edge {
 				if len(held) == 0 {
 					continue
 				}
-				if op, ok := lockOpOf(ci); ok {
-					if op.Acquire && !op.Deferred {
-						if k := a.lockKey(op, c16LockRecv(ci)); k != "" {
-							for h := range held {
-								emit(h, k, fn, posOf(in), fnName(fn))
-							}
+				if op, k, ok := a.opOf(ci); ok {
+					if ((op.Acquire && !op.WG) || op.Probe) && !op.Deferred && k != "" {
+						for h := range held {
+							emit(h, k, fn, posOf(in), fnName(fn))
 						}
 					}
 					continue
@@ -1285,11 +1323,14 @@ func runC16(c *Ctx) {
 	lap("checkD5")
 	a.checkD6(waits)
 	lap("checkD6")
+	a.checkD7()
+	lap("checkD7")
 }
 
 // ---------- D1
 
 func (a *c16An) inScope(class string) bool {
+	class = strings.TrimPrefix(class, c16WGPrefix)
 	for _, cd := range a.conds {
 		if strings.HasPrefix(class, cd.Class+".") {
 			return true
@@ -1340,6 +1381,13 @@ func (a *c16An) checkD1() {
 	}
 	sort.Strings(scope)
 	describe := func(e c16Edge) string {
+		f, t := c16KeyClass(e.From), c16KeyClass(e.To)
+		switch {
+		case strings.HasPrefix(t, c16WGPrefix):
+			return fmt.Sprintf("%s.Wait() blocks until every Add is matched by a Done while %s is held in %s (%s)", strings.TrimPrefix(t, c16WGPrefix), f, e.Via, c.pos(e.Pos))
+		case strings.HasPrefix(f, c16WGPrefix):
+			return fmt.Sprintf("%s is taken (or re-taken after a sleep) while an Add on %s is outstanding in %s (%s)", t, strings.TrimPrefix(f, c16WGPrefix), e.Via, c.pos(e.Pos))
+		}
 		return fmt.Sprintf("%s is taken while %s is held in %s (%s)", c16KeyClass(e.To), c16KeyClass(e.From), e.Via, c.pos(e.Pos))
 	}
 	// SCCs (Tarjan)
@@ -2788,6 +2836,196 @@ func (a *c16An) checkD6(waits []c16Site) {
 			}
 		}
 	}
+}
+
+// ---------- D7: one object per key for the objects waiters sleep on
+
+// mapFieldClass: v is a load of a map-typed struct field; returns the field's data class and
+// the root struct type.
+func c16MapFieldClass(v ssa.Value) (string, *types.Named) {
+	ld, ok := v.(*ssa.UnOp)
+	if !ok || ld.Op != token.MUL {
+		return "", nil
+	}
+	if _, isMap := ld.Type().Underlying().(*types.Map); !isMap {
+		return "", nil
+	}
+	cls, root, base := c16DataClass(ld.X)
+	if cls == "" || c16FreshAlloc(base) {
+		return "", nil
+	}
+	return cls, root
+}
+
+func (a *c16An) inAnyFamily(n *types.Named) bool {
+	if n == nil {
+		return false
+	}
+	name := c16TypeName(n)
+	for _, cd := range a.conds {
+		if cd.Family[name] || cd.Owner.Obj() == n.Obj() {
+			return true
+		}
+	}
+	return false
+}
+
+// checkD7: registries = map fields of family objects into which freshly allocated family
+// objects (the condition-carrying GroupStatus / topicUpdate, the PeerStatus whose status the
+// waiters test) are inserted. (a) every such get-or-create insert is dominated by the miss of
+// a lookup of the same map made in the same write-locked critical section (same lock
+// write-held at both, not released in between); (b) entries of a registry are never deleted.
+func (a *c16An) checkD7() {
+	c := a.c
+	type site struct {
+		fn  *ssa.Function
+		in  *ssa.MapUpdate
+		cls string
+	}
+	var inserts []site
+	registries := map[string]bool{}
+	for _, fn := range a.w.ModFuncs {
+		if p := fnPkg(fn); p != nil && p.Path() == c16PkgNotify {
+			continue
+		}
+		for _, b := range fn.Blocks {
+			for _, in := range b.Instrs {
+				mu, ok := in.(*ssa.MapUpdate)
+				if !ok {
+					continue
+				}
+				cls, root := c16MapFieldClass(mu.Map)
+				if cls == "" || !a.inAnyFamily(root) {
+					continue
+				}
+				al, isAlloc := mu.Value.(*ssa.Alloc)
+				if !isAlloc || !a.inAnyFamily(c16Named(al.Type())) {
+					continue
+				}
+				if _, isStruct := c16Named(al.Type()).Underlying().(*types.Struct); !isStruct {
+					continue
+				}
+				inserts = append(inserts, site{fn, mu, cls})
+				registries[cls] = true
+			}
+		}
+	}
+	if len(inserts) == 0 {
+		c.undecided("D7", "registries", token.NoPos, "no get-or-create site of a waiter-observed object found: anchors not found")
+		return
+	}
+	seenCons := map[string]int{}
+	for _, s := range inserts {
+		c.analysed(s.fn)
+		cons := fnName(s.fn) + "+get-or-create(" + s.cls + ")"
+		seenCons[cons]++
+		if n := seenCons[cons]; n > 1 {
+			cons += fmt.Sprintf("#%d", n)
+		}
+		// lookups of the same map whose miss dominates the insert
+		var lookups []*ssa.Lookup
+		for _, b := range s.fn.Blocks {
+			for _, in := range b.Instrs {
+				lk, ok := in.(*ssa.Lookup)
+				if !ok {
+					continue
+				}
+				if cls, _ := c16MapFieldClass(lk.X); cls != s.cls {
+					continue
+				}
+				var miss []edge
+				if lk.CommaOk {
+					for _, ex := range extractsOf(lk, 1) {
+						miss = append(miss, edgesOfVerdict(ex).Reject...)
+					}
+				} else {
+					miss = edgesOfVerdict(lk).Accept // pointer == nil
+				}
+				for _, e := range miss {
+					if edgeDominates(e, s.in.Block()) {
+						lookups = append(lookups, lk)
+						break
+					}
+				}
+			}
+		}
+		if len(lookups) == 0 {
+			c.fail("D7", cons, posOf(s.in), "a freshly created object is stored in %s without a preceding lookup of that map whose miss leads here: an object already registered for the key (on whose condition waiters may sleep) is replaced", s.cls)
+			continue
+		}
+		heldIns := a.mustAt(s.in)
+		okSection, why := false, ""
+		for _, lk := range lookups {
+			heldLk := a.mustAt(lk)
+			for k := range heldIns {
+				if !strings.HasSuffix(k, "/W") || strings.HasPrefix(k, c16WGPrefix) || !heldLk[k] {
+					continue
+				}
+				if !a.releasedBetween(lk, s.in, k) {
+					okSection, why = true, c16KeyClass(k)
+				}
+			}
+		}
+		c.check(okSection, "D7", cons, posOf(s.in),
+			"the miss that decides the creation and the store are in one critical section of "+why,
+			fmt.Sprintf("the lookup of %s whose miss decides the creation and the store of the new object are not in one write-locked critical section (held at the store: %v): two goroutines can both miss and each register its own object; a waiter then sleeps on a condition nobody broadcasts on", s.cls, heldIns.list()))
+	}
+	// (b) no removal
+	var regs []string
+	for r := range registries {
+		regs = append(regs, r)
+	}
+	sort.Strings(regs)
+	removed := map[string]bool{}
+	for _, fn := range a.w.ModFuncs {
+		for _, ci := range callsIn(fn, keyIs("builtin.delete")) {
+			if len(ci.Common().Args) < 1 {
+				continue
+			}
+			cls, _ := c16MapFieldClass(ci.Common().Args[0])
+			if !registries[cls] {
+				continue
+			}
+			removed[cls] = true
+			c.analysed(fn)
+			c.fail("D7", fnName(fn)+"+delete("+cls+")", posOf(ci), "an entry of %s is deleted: a waiter may still be asleep on the condition of the removed object, the next get-or-create for the key builds a fresh object with a new condition and that waiter is never woken", cls)
+		}
+	}
+	for _, r := range regs {
+		if !removed[r] {
+			c.ok("D7", "registry:"+r+"+never-removed", token.NoPos, "no delete on this map anywhere in the module: one object per key for the life of the owner")
+		}
+	}
+}
+
+// releasedBetween: lock key k can be released on a path from instruction x to instruction y of
+// the same function (an unlock, or a call that releases and re-takes it such as notify.Wait).
+func (a *c16An) releasedBetween(x, y ssa.Instruction, k string) bool {
+	for _, b := range x.Parent().Blocks {
+		for _, in := range b.Instrs {
+			ci, ok := in.(ssa.CallInstruction)
+			if !ok || in == x || in == y {
+				continue
+			}
+			if !instrReaches(x, in) || !instrReaches(in, y) {
+				continue
+			}
+			if op, key, ok := a.opOf(ci); ok {
+				if !op.Acquire && !op.Probe && !op.Deferred && key == k {
+					return true
+				}
+				continue
+			}
+			for _, callee := range a.callees(ci) {
+				for _, q := range a.acq[callee] {
+					if q.Reacq && c16KeyClass(a.subst(q.Key, ci)) == c16KeyClass(k) {
+						return true
+					}
+				}
+			}
+		}
+	}
+	return false
 }
 
 func c16IsRead(v ssa.Value) bool {
